@@ -37,6 +37,46 @@ def tame(text):
 
 
 _FN_INFO = None
+_FN_PARAMS = {}
+
+CRITERIA = ['">1"', '"<2"', '">=0"', '"<=3"', '"<>3"', '"=1"', '"a*"', '"?b"', '"abc"', '3', '"="', '">"', '"<>"', '""',
+            '">=abc"', '"<>"&1', '"*"', 'TRUE', '"=TRUE"', '">2020-01-01"']
+UNITS = ['"y"', '"m"', '"d"', '"md"', '"ym"', '"yd"', '"Y"', '"x"']
+FORMATS = ['"yyyy"', '"0.00"', '"dd/mm/yyyy"', '"#,##0"', '"0%"', '"hh:mm"', '""', '"@"']
+DATES = ['"2020-02-29"', 'DATE(2020,2,29)', 'NOW()', '43890', '"10:30 PM"', 'TODAY()', '"March 5"', '1', '60', '61', '0.5',
+         '"1900-03-01"', '"31/12/1999"']
+ARRAYS = ['{1,2,3}', '{3;1;2}', '{1,2;3,4}', '{"a","b","c"}', '{1,"a",TRUE}', 'A1:B2', 'B2:A1', '{5}', '{1,,2}', '{0.5,-1}']
+
+
+def typed_arg(rng, env, pname, depth):
+    """An argument that suits the parameter's name, so that function bodies are entered deeply."""
+    star = pname.startswith('*')
+    p = pname.lstrip('*').lower()
+    if 'criteria' in p:
+        if star and rng.random() < 0.5:
+            return rng.choice(ARRAYS)
+        return rng.choice(CRITERIA)
+    if p in ('args', 'arr', 'lookup_array', 'sum_args', 'average_range', 'yx'):
+        r = rng.random()
+        if r < 0.6:
+            return rng.choice(ARRAYS)
+        if r < 0.8 and env.variables:
+            return rng.choice(env.variables)
+        return gen_expr(rng, env, depth)
+    if p == 'unit':
+        return rng.choice(UNITS)
+    if p == 'format_text':
+        return rng.choice(FORMATS)
+    if 'text' in p or p in ('char', 'delimiter', 'hex'):
+        return rng.choice(STRINGS)
+    if 'date' in p or p in ('serial_number', 'time'):
+        return rng.choice(DATES)
+    if p in ('number', 'value', 'significance', 'num_chars', 'base', 'digits', 'places', 'month', 'year', 'day', 'n', 'power',
+             'numerator', 'denominator', 'row_num', 'column_num', 'start_num', 'instance_num', 'match_type', 'hour',
+             'minute', 'second', 'bottom', 'top', 'form', 'return_type', 'rate', 'periods', 'payment', 'x_num', 'y_num',
+             'real', 'imaginary', 'dec', 'number1', 'number2', 'type', 'future'):
+        return number_literal(rng) if rng.random() < 0.8 else gen_expr(rng, env, 0)
+    return gen_expr(rng, env, depth)
 
 
 def fn_info():
@@ -48,18 +88,22 @@ def fn_info():
         for name in formulas.supported():
             f = formulas.dispatcher._registry_[name]
             lo = hi = 0
+            pnames = []
             try:
                 for p in inspect.signature(f).parameters.values():
                     if p.kind in (p.POSITIONAL_ONLY, p.POSITIONAL_OR_KEYWORD):
                         hi += 1
+                        pnames.append(p.name)
                         if p.default is p.empty:
                             lo += 1
                     elif p.kind == p.VAR_POSITIONAL:
                         hi = None
+                        pnames.append('*' + p.name)
                         break
             except (TypeError, ValueError):
                 lo, hi = 0, None
             info[name] = (lo, hi)
+            _FN_PARAMS[name] = pnames
         _FN_INFO = info
     return _FN_INFO
 
@@ -134,7 +178,7 @@ def number_literal(rng):
     if k == 5:
         return str(rng.randrange(10))
     if k == 6:
-        return '0%d' % rng.randrange(100)
+        return '0%d' % rng.randrange(100) if rng.random() < 0.5 else '%d.0' % rng.choice([0, 1, 2, 3, 7, 10, 12, 64, 100, 2020])
     return str(rng.randrange(0, 10000))
 
 
@@ -175,7 +219,7 @@ def array_literal(rng, env, depth):
     return '{' + sep.join(items) + '}'
 
 
-def builtin_call(rng, env, depth, name=None):
+def builtin_call(rng, env, depth, name=None, force_typed=False):
     info = fn_info()
     if name is None:
         name = rng.choice(env.builtins or fn_names())
@@ -188,12 +232,24 @@ def builtin_call(rng, env, depth, name=None):
     sep = ',' if rng.random() < 0.9 else rng.choice([';', '\\'])
     args = []
     sub = 0 if name in RISKY else depth - 1
-    for _ in range(n):
+    pnames = _FN_PARAMS.get(name, [])
+    typed = (force_typed or rng.random() < 0.6) and not env.deny
+    for j in range(n):
         if rng.random() < 0.04:
             args.append('')
+        elif typed and pnames:
+            pn = pnames[j] if j < len(pnames) else pnames[-1]
+            if pn.startswith('*') and 'criteria' in pn:
+                pn = pn if (j - len(pnames) + 1) % 2 == 1 else 'args'     # range, criteria, range, criteria ...
+            a = typed_arg(rng, env, pn, sub)
+            args.append(a if name not in RISKY else (a if _leafy(a) else gen_expr(rng, env, 0)))
         else:
             args.append(gen_expr(rng, env, sub))
     return '%s(%s)' % (name, sep.join(args))
+
+
+def _leafy(text):
+    return '(' not in text and '*' not in text and '^' not in text
 
 
 def custom_call(rng, env, depth):
@@ -377,3 +433,29 @@ class G5Sampler(object):
         n = self.sizes[arity]
         a, b = self.perm[arity]
         return g5_case(arity, (a * (i % n) + b) % n)
+
+
+# --- G7: long and deep inputs (budget linearity, parser stack depth) --------------------------
+def g7_long(rng, env):
+    k = rng.randrange(9)
+    n = rng.choice([50, 200, 600, 1500]) if rng.random() < 0.3 else rng.choice([30, 60, 120])
+    if k == 0:
+        return '+'.join(str(rng.randrange(10)) for _ in range(n))
+    if k == 1:
+        d = rng.choice([20, 100, 400])
+        return '(' * d + '1' + ')' * d
+    if k == 2:
+        d = rng.choice([20, 100, 300])
+        return '(' * d + '1'                          # unbalanced, deep
+    if k == 3:
+        return '{' + ','.join(str(rng.randrange(100)) for _ in range(n)) + '}'
+    if k == 4:
+        return 'SUM(' + ','.join(rng.choice(['1', 'A1', '"x"', 'TRUE', '{1,2}', '']) for _ in range(n)) + ')'
+    if k == 5:
+        return '"' + ''.join(rng.choice('ab c,;(){}1+') for _ in range(n * 3)) + rng.choice(['"', ''])
+    if k == 6:
+        d = rng.choice([10, 40, 120])
+        return 'IF(1,' * d + '2' + ')' * d
+    if k == 7:
+        return '&'.join(rng.choice(['"a"', 'B2', 'zz_top', '1']) for _ in range(n))
+    return '-' * rng.choice([10, 100, 1000]) + '1'
